@@ -115,7 +115,7 @@ void vh_install_handlers(void) {
 int vh_ledger_on = 0, vh_quarantine = 0;
 long vh_call_allocs = 0, vh_fail_at = 0, vh_fail_from = 0, vh_failed = 0, vh_badfree = 0;
 long vh_overlap_copies = 0;
-volatile long vh_locks = 0, vh_unlocks = 0, vh_usleeps = 0;
+volatile long vh_locks = 0, vh_unlocks = 0, vh_usleeps = 0, vh_unlock_failures = 0;
 volatile int vh_force_busy = 0;
 void (*vh_hook_before_lock)(void) = NULL;
 void (*vh_hook_locked)(void) = NULL;
@@ -307,7 +307,7 @@ int __wrap_pthread_mutex_lock(pthread_mutex_t *m) {
 int __wrap_pthread_mutex_unlock(pthread_mutex_t *m) {
     int r = __real_pthread_mutex_unlock(m);
     if (r == 0) { __sync_add_and_fetch(&vh_unlocks, 1); if (vh_hook_unlocked) vh_hook_unlocked(); }
-    else if (vh_hook_unlock_failed) vh_hook_unlock_failed();
+    else { __sync_add_and_fetch(&vh_unlock_failures, 1); if (vh_hook_unlock_failed) vh_hook_unlock_failed(); }
     return r;
 }
 int __wrap_usleep(useconds_t u) { (void) u; __sync_add_and_fetch(&vh_usleeps, 1); return 0; }
